@@ -307,6 +307,63 @@ def run(ctx):
                 res.sample({"scenario": kind, "operations_per_process": [n0, n1], "schedules": schedules[:4]})
         finally:
             shutil.rmtree(tmp, ignore_errors=True)
+    # long-lived processes taking turns on one store (no preemption needed): A keeps version 1, B keeps version 2 of the same
+    # paths, A keeps version 1 again - every process (A, B, a fresh one) must then see version 1 everywhere, whatever A or B
+    # remember privately about what they committed (both run with the object cache, as set_store(cache_objects=True) does)
+    for ti in range(4 if thorough else 2):
+        w = progs.gen_world(rng, nfun=rng.randint(2, 3), allow=("call", "keep", "datafn"))
+        for f in w["funs"]:
+            f["uses_ext"] = False
+        kept = [fn for (_, fn) in progs.kept_paths(w)]
+        w2 = copy.deepcopy(w)
+        for f in w2["funs"]:
+            if f["name"] == kept[-1]:
+                f["tag"] = f["tag"] + "v2"
+        v1, p1 = plain_values(w)
+        v2, p2 = plain_values(w2)
+        tmp = tempfile.mkdtemp(prefix="ddsverif_c07t_")
+        try:
+            ws = os.path.join(tmp, "ws")
+            os.makedirs(ws)
+            m1, m2, em = "c7t_%d_%d" % (os.getpid(), ti), "c7t_%d_%db" % (os.getpid(), ti), "c7te_%d_%d" % (os.getpid(), ti)
+            write_world(ws, m1, em, w)
+            write_world(ws, m2, em, w2)
+            idir, ddir = os.path.join(tmp, "internal"), os.path.join(tmp, "data")
+            cache = [True, 2, None][ti % 3]
+            A = pipeline.WorkerProc("real", cwd=tmp)
+            B = pipeline.WorkerProc("real", cwd=tmp)
+            entry = {"kind": "eval", "fun": "f0"} if ti % 2 else {"kind": "keep", "fun": "f0", "path": "/turns/top"}
+            try:
+                for wk, mod in ((A, m1), (B, m2)):
+                    wk.call(cmd="store_api", internal_dir=idir, data_dir=ddir, cache_objects=cache)
+                    wk.call(cmd="world", dir=ws, module=mod, extmod=em)
+                bad = None
+                for turn, (wk, who, want_v, want_p) in enumerate(((A, "A", v1, p1), (B, "B", v2, p2), (A, "A", v1, p1), (B, "B", v2, p2), (A, "A", v1, p1))):
+                    r = wk.call(cmd="run", entry=entry)
+                    res.evaluations += 1
+                    if r["error"] is not None or r["value"] != want_v:
+                        bad = "turn %d: process %s gets %r (error %s), plain execution gives %r" % (turn, who, r["value"], r["error"], want_v)
+                        break
+                    for other, oname in ((A, "A"), (B, "B")):
+                        for p_, v_ in sorted(want_p.items()):
+                            lv = other.call(cmd="load", path=p_)
+                            if lv["error"] is not None or lv["value"] != v_:
+                                bad = "after turn %d (process %s kept its version) process %s loads %s as %s; the value just kept is %r" % (turn, who, oname, p_, lv, v_)
+                                break
+                        if bad:
+                            break
+                    if bad:
+                        break
+                res.nontrivial("turns %d" % ti)
+                res.count("scenario_taking_turns")
+                if bad:
+                    res.violations.append({"what": bad, "input": {"scenario": "processes taking turns on one store", "cache_objects": cache,
+                                                                    "entry": entry, "source": progs.render_world(w, "extmod")}, "kf": None})
+            finally:
+                A.close()
+                B.close()
+        finally:
+            shutil.rmtree(tmp, ignore_errors=True)
     pipeline.close_ref()
     res.rule = ("scenarios {same keep on a cold store (one through the cache wrapper), re-keep of changed code vs concurrent loads, same internal "
                 "directory with two data directories} x schedules {every (quick: every n/12-th) single preemption point of each process, sampled "
